@@ -74,6 +74,8 @@ class Cell:
         self.frame, self.col = frame, col
 
 
+ROW_DROPPING = {'drop_duplicates', 'head', 'tail', 'sample', 'nlargest',
+                'nsmallest', 'first', 'last', 'truncate'}
 PASS_METHODS = {'to_numpy', 'unique', 'copy', 'tolist', 'astype',
                 'reset_index', 'sort_values'}
 
@@ -149,6 +151,9 @@ def ev(n, env):
             if a == 'dropna':
                 return Series(v.frame, v.col,
                               v.extra | {'notnull(%s)' % v.col})
+            if a in ROW_DROPPING:
+                return Series(v.frame, v.col, v.extra | {'%s(%s)' % (
+                    a, v.col)})
             if a in PASS_METHODS:
                 return v
         if isinstance(v, Frame):
@@ -160,6 +165,12 @@ def ev(n, env):
                 if sub:
                     return v.with_filter('notnull(%s)' % U(sub[0]))
                 return v.with_filter('notnull(*)')
+            if a in ROW_DROPPING:
+                # rows removed by a criterion that is not a condition on
+                # the selecting columns (value coincidence, position, chance)
+                return v.with_filter('%s(%s)' % (a, ', '.join(
+                    [U(x) for x in n.args] + ['%s=%s' % (k.arg, U(k.value))
+                                              for k in n.keywords])))
             if a in PASS_METHODS:
                 return v
             if a == 'iterrows':
